@@ -45,6 +45,9 @@ def light_zoo():
         ("rs", np.random.RandomState(3)), ("gen", np.random.default_rng(4)), ("sparse", sp.csr_matrix(np.eye(3))),
         ("method", StandardScaler().fit(X).transform), ("user", {"p": U.Plain(1, [2]), "q": [U.WithGetstate(3)]}),
         ("user2", U.Plain(np.arange(3), {"k": U.Plain(1, 2)})),
+        ("bytes", [b"alpha", bytearray(b"beta"), b"gamma"] + [bytes([i, i + 1]) for i in range(120)]),
+        ("bytes2", {"k": [bytes([i]) * 3 for i in range(150)]}),
+        ("nested-dump", [b"one", b"two", U.NestedDump(7), b"three", [U.NestedDump(8), b"four"]]),
     ]
 
 
